@@ -138,7 +138,7 @@ Qed.
 Definition sync_rel (s : state) (a : option sowner) : Prop :=
   match a with
   | None => started s = false /\ sid s = 0 /\ lease s = false /\ timers s = [] /\ own s = None
-  | Some (GHttp x) => started s = true /\ sid s = x /\ lease s = true /\ timers s = [x] /\ own s = Some OHttp
+  | Some (GHttp x) => started s = true /\ sid s = x /\ lease s = true /\ (exists b, timers s = [(x, b)]) /\ own s = Some OHttp
   | Some (GJob n) => started s = true /\ sid s = 0 /\ lease s = false /\ timers s = [] /\ own s = Some (OJob n)
   end.
 
@@ -155,15 +155,15 @@ Ltac destr_R H :=
 
 Ltac unf := unfold step, http, start_with_lease, start_full_sync, refresh, store, complete, release, cancelled_timers,
   job_end, expire, owner_eqb, is_job, sstep, scomplete, swrite, accepted, is_ghttp, is_gjob; cbn.
-Ltac fin := unfold R, sync_rel; cbn; rewrite ?fold_seen, ?map_app, ?app_nil_r; repeat split; auto; try discriminate.
+Ltac fin := unfold R, sync_rel; cbn; rewrite ?fold_seen, ?map_app, ?app_nil_r; repeat split; eauto; try discriminate.
 
 Lemma sim_step e s g : R s g ->
   fst (step Fixed e s) = fst (sstep e g) /\ R (snd (step Fixed e s)) (snd (sstep e g)).
 Proof.
   intros HR. destruct s as [sd st si le ti se ow], g as [a w d]. destr_R HR. cbn in *. subst sd se.
-  destruct a as [[x|n]|]; cbn in Hr; destruct Hr as (-> & -> & -> & -> & ->).
+  destruct a as [[x|n]|]; cbn in Hr; [destruct Hr as (-> & -> & -> & (b & ->) & ->) | destruct Hr as (-> & -> & -> & -> & ->) ..].
   - (* an HTTP sync x is active *)
-    destruct e as [start id end_ ents|n|n ents|n|]; unf.
+    destruct e as [start id end_ ents|n|n ents|n|ents|]; unf.
     + destruct start; cbn.
       * rewrite N.eqb_refl. cbn. destruct end_; cbn; fin.
       * destruct (N.eqb id x) eqn:Hid; cbn.
@@ -172,9 +172,10 @@ Proof.
     + fin.
     + fin.
     + fin.
+    + fin.
     + rewrite N.eqb_refl. fin.
   - (* a job sync n is active *)
-    destruct e as [start id end_ ents|m|m ents|m|]; unf.
+    destruct e as [start id end_ ents|m|m ents|m|ents|]; unf.
     + destruct start; cbn.
       * rewrite N.eqb_refl. cbn. destruct end_; cbn; fin.
       * destruct (N.eqb id 0) eqn:Hid; cbn.
@@ -184,12 +185,14 @@ Proof.
     + fin.
     + destruct (N.eqb n m) eqn:Hnm; cbn; fin.
     + fin.
+    + fin.
   - (* no sync is active *)
     rewrite (Hw eq_refl) in *. clear Hw.
-    destruct e as [start id end_ ents|m|m ents|m|]; unf.
+    destruct e as [start id end_ ents|m|m ents|m|ents|]; unf.
     + destruct start; cbn.
       * rewrite N.eqb_refl. cbn. destruct end_; cbn; fin.
       * destruct end_; cbn; fin.
+    + fin.
     + fin.
     + fin.
     + fin.
@@ -223,7 +226,7 @@ Proof.
   destruct (sstep e g) as [r g1] eqn:Hs. specialize (IH g1).
   destruct (srun h g1) as [rs g2]. cbn in *. rewrite IH. f_equal.
   destruct g as [a w d]. cbn.
-  destruct e as [start id end_ ents|n|n ents|n|]; cbn in Hs.
+  destruct e as [start id end_ ents|n|n ents|n|tents|]; cbn in Hs.
   - destruct start; cbn in Hs.
     + destruct end_; injection Hs as _ <-; reflexivity.
     + destruct a as [[x|n]|]; cbn in *.
@@ -238,6 +241,7 @@ Proof.
     + injection Hs as _ <-; reflexivity.
     + rewrite (N.eqb_sym n m). destruct (N.eqb m n); injection Hs as _ <-; reflexivity.
     + injection Hs as _ <-; reflexivity.
+  - injection Hs as _ <-. cbn. destruct a as [[x|m]|]; reflexivity.
   - injection Hs as _ <-. destruct a as [[x|m]|]; reflexivity.
 Qed.
 
@@ -275,7 +279,7 @@ Qed.
 
 Lemma SInv_sstep e g : SInv g -> SInv (snd (sstep e g)).
 Proof.
-  intros HI. destruct e as [start id end_ ents|n|n ents|n|]; cbn.
+  intros HI. destruct e as [start id end_ ents|n|n ents|n|tents|]; cbn.
   - destruct (negb start && negb (accepted (g_active g) id)); cbn; [assumption|].
     set (g1 := if start then _ else g).
     assert (SInv g1) by (subst g1; destruct start; [apply (SInv_fresh _ g HI)|assumption]).
@@ -283,6 +287,7 @@ Proof.
   - apply (SInv_fresh _ g HI).
   - now apply SInv_swrite.
   - destruct (is_gjob _ _); cbn; auto using SInv_scomplete.
+  - now apply SInv_swrite.
   - destruct (is_ghttp _); [apply (SInv_fresh _ g HI)|assumption].
 Qed.
 
@@ -304,7 +309,7 @@ Lemma sstep_completes e g :
   g_data (snd (sstep e g)) =
     sweep (map e_id (written_by g e)) (store_data (ents_of e) (g_data g)).
 Proof.
-  destruct g as [a w d]. destruct e as [start id end_ ents|n|n ents|n|]; cbn; try discriminate.
+  destruct g as [a w d]. destruct e as [start id end_ ents|n|n ents|n|tents|]; cbn; try discriminate.
   - destruct start, end_; cbn; try discriminate.
     + intros _. rewrite app_nil_r. split; reflexivity.
     + destruct a as [[x|m]|]; try discriminate. cbn. intros ->. cbn. split; reflexivity.
@@ -315,7 +320,7 @@ Lemma sstep_no_completion e g :
   completes (g_active g) e = false ->
   g_data (snd (sstep e g)) = g_data g \/ g_data (snd (sstep e g)) = store_data (ents_of e) (g_data g).
 Proof.
-  destruct g as [a w d]. destruct e as [start id end_ ents|n|n ents|n|]; cbn.
+  destruct g as [a w d]. destruct e as [start id end_ ents|n|n ents|n|tents|]; cbn.
   - destruct start; cbn.
     + destruct end_; [discriminate|]. intros _. right; reflexivity.
     + destruct a as [[x|m]|]; cbn.
@@ -326,6 +331,7 @@ Proof.
   - left; reflexivity.
   - right; reflexivity.
   - intros ->. left; reflexivity.
+  - right; reflexivity.
   - destruct (is_ghttp a); left; reflexivity.
 Qed.
 
@@ -335,7 +341,7 @@ Lemma written_by_agrees e g : SInv g -> completes (g_active g) e = true ->
   lookup (d_view (store_data (ents_of e) (g_data g))) y = Some cd.
 Proof.
   intros (Hn & Hw & Hl) Hc y cd. rewrite lookup_store_data.
-  destruct e as [start id end_ ents|n|n ents|n|]; cbn in *; try discriminate.
+  destruct e as [start id end_ ents|n|n ents|n|tents|]; cbn in *; try discriminate.
   - destruct start.
     + intros ->. reflexivity.
     + rewrite wlookup_app. destruct (wlookup (rev ents) y); [auto|]. apply Hl.
@@ -395,7 +401,8 @@ Proof.
   destruct (R_final h) as (_ & _ & Hr & _).
   destruct (final Fixed h) as [sd st si le ti se ow]. 
   destruct (g_active (spec_after h)) as [[x|n]|]; cbn in *; try discriminate;
-    destruct Hr as (-> & -> & -> & -> & ->); unfold http, refresh; cbn; rewrite Ha; reflexivity.
+    [destruct Hr as (-> & -> & -> & (b & ->) & ->) | destruct Hr as (-> & -> & -> & -> & ->)];
+    unfold http, refresh; cbn; rewrite Ha; reflexivity.
 Qed.
 
 (** the same at the level of the state, for both variants: a sync is started and the id differs *)
@@ -416,7 +423,20 @@ Proof.
   destruct (R_final h) as (_ & _ & Hr & _).
   destruct (final Fixed h) as [sd st si le ti se ow].
   destruct (g_active (spec_after h)) as [[x|m]|]; cbn in *;
-    destruct Hr as (-> & -> & -> & -> & ->); cbn; rewrite ?Ha; reflexivity.
+    [destruct Hr as (-> & -> & -> & (b & ->) & ->) | destruct Hr as (-> & -> & -> & -> & ->) ..];
+    cbn; rewrite ?Ha; reflexivity.
+Qed.
+
+(** at most one lease timer is alive, and it is the one of the active sync: whatever superseded,
+    completed or expired syncs there were (and whatever their ids), their timers are dead *)
+Lemma one_live_timer h :
+  map fst (timers (final Fixed h)) = if lease (final Fixed h) then [sid (final Fixed h)] else [].
+Proof.
+  destruct (R_final h) as (_ & _ & Hr & _).
+  destruct (g_active (spec_after h)) as [[x|n]|]; cbn in Hr.
+  - destruct Hr as (_ & -> & -> & (b & ->) & _). reflexivity.
+  - destruct Hr as (_ & _ & -> & -> & _). reflexivity.
+  - destruct Hr as (_ & _ & -> & -> & _). reflexivity.
 Qed.
 
 (** ** The pinned tree inside its usage envelope *)
@@ -445,13 +465,14 @@ Proof.
   { destruct HR as (_ & _ & Hr & _). destruct g as [a w d]. cbn in Hc, Hr.
     destruct cur as [n|]; cbn in Hc.
     - subst a. cbn in Hr. destruct Hr as (Hst & _ & _ & Hti & How).
-      destruct e as [start id end_ ents|m|m ents|m|]; cbn in Hx; try discriminate.
+      destruct e as [start id end_ ents|m|m ents|m|tents|]; cbn in Hx; try discriminate.
       + apply andb_true_iff in Hx as [Hm Hx]. split; [reflexivity|]. exists (Some n). split; [reflexivity|assumption].
       + apply andb_true_iff in Hx as [Hm Hx]. apply N.eqb_eq in Hm; subst m. split.
         * cbn. rewrite Hst, How. cbn. rewrite N.eqb_refl. reflexivity.
         * exists None. cbn. rewrite N.eqb_refl. cbn. split; [discriminate|assumption].
       + split; [reflexivity|]. exists (Some n). split; [reflexivity|assumption].
-    - destruct e as [start id end_ ents|m|m ents|m|]; cbn in Hx; try discriminate.
+      + split; [reflexivity|]. exists (Some n). split; [reflexivity|assumption].
+    - destruct e as [start id end_ ents|m|m ents|m|tents|]; cbn in Hx; try discriminate.
       + split.
         * cbn. apply http_same. destruct a as [[x|m]|]; cbn in Hr.
           -- destruct Hr as (_ & _ & _ & _ & ->). reflexivity.
@@ -463,6 +484,7 @@ Proof.
           -- destruct end_; cbn; discriminate.
           -- destruct end_; [destruct (is_ghttp a)|]; cbn; try assumption; discriminate.
       + split; [reflexivity|]. exists (Some m). split; [reflexivity|assumption].
+      + split; [reflexivity|]. exists None. split; [|assumption]. cbn. destruct a; assumption.
       + split; [reflexivity|]. exists None. split; [|assumption]. cbn.
         destruct (is_ghttp a); cbn; [discriminate|assumption]. }
   destruct Hstep as [He (cur' & Hc' & Hx')].
